@@ -1,13 +1,91 @@
 import Rooc.Wire
 import Rooc.Oracle
+import Rooc.Pre.Wire
 namespace Rooc.Drv.C19
-open Rooc Sexp
+open Rooc Sexp Rooc.Pre
 
-/-- model requests for C19 (run at `Float` for the exact diff, at `Ext Rat` as oracle). -/
-def handle (α : Type) [Arith α] [Wire α] : List Sexp → Sexp
+def decKinds (xs : List Sexp) : Option (List Kind) := optAll (xs.map Kind.dec)
+
+def encCheck : Except TErr Unit → Sexp
+  | .ok _ => app "ok" []
+  | .error e => app "err" [.atom e.name]
+
+def encEval (r : Except TErr (Prim Float)) : Sexp :=
+  match r with
+  | .ok v => app "ok" [v.enc]
+  | .error (.binOpError .panic) | .error (.unOpError .panic) => app "panic" []
+  | .error e => app "err" [.atom e.name]
+
+def handleF : List Sexp → Sexp
+  | [.atom "canbin", l, .atom op, r] =>
+    match Kind.dec l, BinOp.ofName op, Kind.dec r with
+    | some l, some op, some r => app "ok" [boolAtom (l.canApplyBinary op r)]
+    | _, _, _ => app "err" [.atom "decode"]
+  | [.atom "bintype", l, .atom op, r] =>
+    match Kind.dec l, BinOp.ofName op, Kind.dec r with
+    | some l, some op, some r => app "ok" [(binResultKind l op r).enc]
+    | _, _, _ => app "err" [.atom "decode"]
+  | [.atom "canun", .atom op, k] =>
+    match UnOp.ofName op, Kind.dec k with
+    | some op, some k => app "ok" [boolAtom (k.canApplyUnary op)]
+    | _, _ => app "err" [.atom "decode"]
+  | [.atom "untype", .atom op, k] =>
+    match UnOp.ofName op, Kind.dec k with
+    | some op, some k => app "ok" [(unResultKind op k).enc]
+    | _, _ => app "err" [.atom "decode"]
+  | [.atom "isnumeric", k] =>
+    match Kind.dec k with | some k => app "ok" [boolAtom k.isNumeric] | none => app "err" [.atom "decode"]
+  | [.atom "spread", k] =>
+    match Kind.dec k with
+    | some k => (match k.canSpreadInto with | some ks => app "ok" (ks.map Kind.enc) | none => app "err" [.atom "Unspreadable"])
+    | none => app "err" [.atom "decode"]
+  | [.atom "fn", .atom name, .list st, .list dy] =>
+    match decKinds st, decKinds dy with
+    | some st, some dy =>
+      .list [.atom "check", encCheck (fnTypeCheck name st), .atom "ret", (fnReturnType name st).enc, .atom "callerr",
+             (match fnCallTypeError name dy with | none => .atom "none" | some e => .atom e.name)]
+    | _, _ => app "err" [.atom "decode"]
+  | [.atom "expr", e] =>
+    match (PExp.dec e : Option (PExp Float)) with
+    | some e => .list [.atom "tc", boolAtom e.typeCheck, .atom "type", e.typeOf.enc, .atom "eval", encEval e.eval]
+    | none => app "err" [.atom "decode"]
   | _ => app "err" [.atom "bad-request"]
 
-/-- exact oracle: the PROPERTY evaluated on the implementation's own answer. -/
+def handle (α : Type) [Arith α] [Wire α] (args : List Sexp) : Sexp := handleF args
+
+/-! ### oracle -/
+def typeClass : List String := ["WrongArgument", "WrongExpectedArgument", "BinOpError", "UnOpError", "Unspreadable", "SpreadError",
+  "NonExistentFunction", "WrongNumberOfArguments", "WrongFunctionSignature", "UndeclaredVariable"]
+
+/-- numeric kinds other than Boolean form one class: the static rules never separate them -/
+def kindClass : Kind → Kind
+  | .integer | .pint | .number => .number
+  | k => k
+
 def oracle : List Sexp → Sexp
+  | [.atom "sound", .atom tc, .atom tr, .atom flag] =>
+    if tc == "ok" && typeClass.contains tr && flag != "numeric-conversion" then
+      app "violation" [.atom ("accepted-then-" ++ tr), .atom flag]
+    else app "ok" []
+  | [.atom "fn-sound", .atom _name, .list [.atom "check", chk, .atom "ret", _, .atom "callerr", .atom e]] =>
+    if chk == app "ok" [] && e != "none" then app "violation" [.atom ("accepted-call-then-" ++ e)] else app "ok" []
+  | [.atom "expr-sound", e, .list [.atom "tc", .atom tc, .atom "type", ty, .atom "eval", ev]] =>
+    match (PExp.dec e : Option (PExp Float)), Kind.dec ty with
+    | some pe, some ty =>
+      if tc != "true" then app "ok" [] else
+      match ev with
+      | .list [.atom "ok", v] =>
+        (match (Prim.dec v : Option (Prim Float)) with
+         | some pv => if kindClass pv.kind == kindClass ty then app "ok" [] else app "violation" [.atom "value-kind-outside-static-kind", pv.kind.enc, ty.enc]
+         | none => app "err" [.atom "decode"])
+      | .list [.atom "panic"] => app "violation" [.atom "accepted-then-panic"]
+      | .list [.atom "err", .atom _] =>
+        -- the exact evaluator knows the cause the Rust drops
+        (match pe.eval with
+         | .error err => if err.dataDependent then app "violation" [.atom "data-failure-reported-as-type-error", .atom err.name]
+                         else app "violation" [.atom "accepted-then-type-error", .atom err.name]
+         | .ok _ => app "violation" [.atom "accepted-then-type-error", .atom "model-disagrees"])
+      | _ => app "err" [.atom "decode"]
+    | _, _ => app "err" [.atom "decode"]
   | _ => app "err" [.atom "bad-request"]
 end Rooc.Drv.C19
